@@ -1129,7 +1129,7 @@ struct Gen<'a> {
 
 /// Prefix of the lines of a session from the first `fail` op on.  `f:` = executed and checked by the
 /// oracle, not compared with the Lean model; empty = compared (the model knows send faults).
-const FAULT_PFX: &str = "f:";
+const FAULT_PFX: &str = "";
 
 const SIZES: &[usize] = &[0, 1, 1, 2, 3, 8, 15, 16, 17, 64, 200, 700, 1019, 1023];
 const SIZES_EDGE: &[usize] = &[1023, 1024, 1386, 1389, 1390, 1391, 1393, 1394, 1395, 1400];
@@ -1742,7 +1742,9 @@ impl<'a> Gen<'a> {
                 if !self.w.refs.contains_key(&a) {
                     self.remotes.insert(a, Remote::new());
                     self.line(&format!("connect {}", a));
-                } else if self.rng.chance(1, 60) {
+                } else if !self.faulty && self.rng.chance(1, 60) {
+                    // (not under send faults: the model attributes a failed retransmission to the
+                    // address, which is the peer only while an address has one peer)
                     self.line("dup");
                     self.line(&format!("connect {}", a));
                 }
